@@ -72,7 +72,7 @@ pub trait Prop: Sync + Send {
     /// execute the trace against the real code, compare with the reference model
     fn check(&self, trace: &Trace, stats: &mut Stats) -> Vec<Finding>;
     /// probes that must be hit at least once in a full quick run (reach self-test)
-    fn required_probes(&self) -> Vec<&'static str> {
+    fn required_probes(&self) -> Vec<String> {
         Vec::new()
     }
 }
